@@ -75,7 +75,12 @@ class libimp(object):
             return self.lib_imp2ad[libad][imp_ord_or_name]
         log.debug('new imp %s %s' % (imp_ord_or_name, dst_ad))
         ad = self.libbase2lastad[libad]
-        self.libbase2lastad[libad] += 0x10  # arbitrary
+        if ad - 0x4 != libad and (ad - 0x4 - libad) % 0x1000 == 0:
+            # The area reserved for this library is exhausted: continue in a
+            # fresh one instead of running into the next library's stubs
+            ad = self.libbase_ad + 0x4
+            self.libbase_ad += 0x1000
+        self.libbase2lastad[libad] = ad + 0x10  # arbitrary
         self.lib_imp2ad[libad][imp_ord_or_name] = ad
 
         name_inv = dict(
